@@ -218,8 +218,8 @@ package keeper
 //@ ensures [C11,C19] only-price-and-coin-change: result == nil ==> Bid[msg.AuctionId][msg.BidId].present && Bid[msg.AuctionId][msg.BidId].Price == msg.Price && Bid[msg.AuctionId][msg.BidId].Coin == msg.Coin && sameExcept(Bid[msg.AuctionId][msg.BidId], old(Bid[msg.AuctionId][msg.BidId]), Price, Coin)
 //@ ensures [C11,C19] other-bids-untouched: forall(a, uint64, forall(i, uint64, a != msg.AuctionId || i != msg.BidId ==> Bid[a][i] == old(Bid[a][i])))
 //@ ensures [C11] failed-modification-changes-no-bid: result != nil ==> Bid == old(Bid)
-//@ ensures [C11,C01,C02,C04] charged-the-increase-of-the-reservation: result == nil ==> let(pd, Auction[msg.AuctionId].PayingCoinDenom, bal(payEsc(msg.AuctionId), pd) == old(bal(payEsc(msg.AuctionId), pd)) + payOf(Bid[msg.AuctionId][msg.BidId], pd) - payOf(old(Bid[msg.AuctionId][msg.BidId]), pd) && payOf(Bid[msg.AuctionId][msg.BidId], pd) >= payOf(old(Bid[msg.AuctionId][msg.BidId]), pd))
-//@ ensures [C11,C02] bidder-pays-exactly-the-increase: result == nil ==> let(pd, Auction[msg.AuctionId].PayingCoinDenom, forall(d, string, bal(addrOf(msg.Bidder), d) == old(bal(addrOf(msg.Bidder), d)) - ite(d == pd, payOf(Bid[msg.AuctionId][msg.BidId], pd) - payOf(old(Bid[msg.AuctionId][msg.BidId]), pd), 0)))
+//@ ensures [C11,C01,C02,C04,C18] charged-the-increase-of-the-reservation: result == nil ==> let(pd, Auction[msg.AuctionId].PayingCoinDenom, bal(payEsc(msg.AuctionId), pd) == old(bal(payEsc(msg.AuctionId), pd)) + payOf(Bid[msg.AuctionId][msg.BidId], pd) - payOf(old(Bid[msg.AuctionId][msg.BidId]), pd) && payOf(Bid[msg.AuctionId][msg.BidId], pd) >= payOf(old(Bid[msg.AuctionId][msg.BidId]), pd))
+//@ ensures [C11,C02,C18] bidder-pays-exactly-the-increase: result == nil ==> let(pd, Auction[msg.AuctionId].PayingCoinDenom, forall(d, string, bal(addrOf(msg.Bidder), d) == old(bal(addrOf(msg.Bidder), d)) - ite(d == pd, payOf(Bid[msg.AuctionId][msg.BidId], pd) - payOf(old(Bid[msg.AuctionId][msg.BidId]), pd), 0)))
 //@ ensures [C02,C19] nobody-else-pays: result == nil ==> forall(ad, Addr, forall(d, string, ad != addrOf(msg.Bidder) && (ad != payEsc(msg.AuctionId) || d != Auction[msg.AuctionId].PayingCoinDenom) ==> bal(ad, d) == old(bal(ad, d))))
 //@ ensures [C17] hook-fired-before-the-bid-is-written: result == nil && k.hooks != nil ==> hookN("BeforeBidModified") == old(hookN("BeforeBidModified")) + 1 && hookArgsAre("BeforeBidModified", msg.AuctionId, msg.BidId, Bid[msg.AuctionId][msg.BidId].Bidder, Bid[msg.AuctionId][msg.BidId].Type, msg.Price, msg.Coin) && hookT("BeforeBidModified") < setT("Bid")
 //@ ensures [C17] veto-aborts-before-the-write: !HookOK ==> result != nil
@@ -237,7 +237,7 @@ package keeper
 //@ ensures [C19,C16,C18] recorded-terms-are-the-message: err == nil ==> let(a, Auction[old(AuctionSeq)], a.present && a.Kind == KindFixed && a.Type == AuctionTypeFixedPrice && a.Id == old(AuctionSeq) && a.Auctioneer == msg.Auctioneer && a.StartPrice == msg.StartPrice && a.SellingCoin == msg.SellingCoin && a.PayingCoinDenom == msg.PayingCoinDenom && a.VestingSchedules == msg.VestingSchedules && a.StartTime == msg.StartTime && len(a.EndTimes) == 1 && a.EndTimes[0] == msg.EndTime && a.RemainingSellingCoin == msg.SellingCoin && a.SellingReserveAddress == strOf(sellEsc(a.Id)) && a.PayingReserveAddress == strOf(payEsc(a.Id)) && a.VestingReserveAddress == strOf(vestEsc(a.Id)))
 //@ ensures [C08,C12] opens-at-creation-iff-start-passed: err == nil ==> Auction[old(AuctionSeq)].Status == ite(msg.StartTime <= BlockTime, AuctionStatusStarted, AuctionStatusStandBy)
 //@ ensures [C01,C02] offered-amount-moves-into-the-selling-escrow: err == nil ==> bal(sellEsc(old(AuctionSeq)), msg.SellingCoin.Denom) == old(bal(sellEsc(old(AuctionSeq)), msg.SellingCoin.Denom)) + msg.SellingCoin.Amount
-//@ ensures [C02] auctioneer-pays-fee-plus-offer: err == nil ==> forall(d, string, bal(addrOf(msg.Auctioneer), d) == old(bal(addrOf(msg.Auctioneer), d)) - coins(Params.AuctionCreationFee, d) - ite(d == msg.SellingCoin.Denom, msg.SellingCoin.Amount, 0))
+//@ ensures [C02,C18] auctioneer-pays-fee-plus-offer: err == nil ==> forall(d, string, bal(addrOf(msg.Auctioneer), d) == old(bal(addrOf(msg.Auctioneer), d)) - coins(Params.AuctionCreationFee, d) - ite(d == msg.SellingCoin.Denom, msg.SellingCoin.Amount, 0))
 //@ ensures [C02] fee-goes-to-the-community-pool: err == nil ==> forall(d, string, pool(d) == old(pool(d)) + coins(Params.AuctionCreationFee, d))
 //@ ensures [C02,C19] nobody-else-pays: err == nil ==> forall(ad, Addr, forall(d, string, ad != addrOf(msg.Auctioneer) && (ad != sellEsc(old(AuctionSeq)) || d != msg.SellingCoin.Denom) ==> bal(ad, d) == old(bal(ad, d))))
 //@ ensures [C19] other-auctions-untouched: forall(x, uint64, x != old(AuctionSeq) ==> Auction[x] == old(Auction[x]))
@@ -257,7 +257,7 @@ package keeper
 //@ ensures [C19,C16,C18,C13] recorded-terms-are-the-message: err == nil ==> let(a, Auction[old(AuctionSeq)], a.present && a.Kind == KindBatch && a.Type == AuctionTypeBatch && a.Id == old(AuctionSeq) && a.Auctioneer == msg.Auctioneer && a.StartPrice == msg.StartPrice && a.MinBidPrice == msg.MinBidPrice && a.MatchedPrice == 0 && a.MaxExtendedRound == msg.MaxExtendedRound && a.ExtendedRoundRate == msg.ExtendedRoundRate && a.SellingCoin == msg.SellingCoin && a.PayingCoinDenom == msg.PayingCoinDenom && a.VestingSchedules == msg.VestingSchedules && a.StartTime == msg.StartTime && len(a.EndTimes) == 1 && a.EndTimes[0] == msg.EndTime && a.SellingReserveAddress == strOf(sellEsc(a.Id)) && a.PayingReserveAddress == strOf(payEsc(a.Id)) && a.VestingReserveAddress == strOf(vestEsc(a.Id)))
 //@ ensures [C08,C12] opens-at-creation-iff-start-passed: err == nil ==> Auction[old(AuctionSeq)].Status == ite(msg.StartTime <= BlockTime, AuctionStatusStarted, AuctionStatusStandBy)
 //@ ensures [C01,C02] offered-amount-moves-into-the-selling-escrow: err == nil ==> bal(sellEsc(old(AuctionSeq)), msg.SellingCoin.Denom) == old(bal(sellEsc(old(AuctionSeq)), msg.SellingCoin.Denom)) + msg.SellingCoin.Amount
-//@ ensures [C02] auctioneer-pays-fee-plus-offer: err == nil ==> forall(d, string, bal(addrOf(msg.Auctioneer), d) == old(bal(addrOf(msg.Auctioneer), d)) - coins(Params.AuctionCreationFee, d) - ite(d == msg.SellingCoin.Denom, msg.SellingCoin.Amount, 0))
+//@ ensures [C02,C18] auctioneer-pays-fee-plus-offer: err == nil ==> forall(d, string, bal(addrOf(msg.Auctioneer), d) == old(bal(addrOf(msg.Auctioneer), d)) - coins(Params.AuctionCreationFee, d) - ite(d == msg.SellingCoin.Denom, msg.SellingCoin.Amount, 0))
 //@ ensures [C02] fee-goes-to-the-community-pool: err == nil ==> forall(d, string, pool(d) == old(pool(d)) + coins(Params.AuctionCreationFee, d))
 //@ ensures [C02,C19] nobody-else-pays: err == nil ==> forall(ad, Addr, forall(d, string, ad != addrOf(msg.Auctioneer) && (ad != sellEsc(old(AuctionSeq)) || d != msg.SellingCoin.Denom) ==> bal(ad, d) == old(bal(ad, d))))
 //@ ensures [C19] other-auctions-untouched: forall(x, uint64, x != old(AuctionSeq) ==> Auction[x] == old(Auction[x]))
